@@ -408,10 +408,10 @@ pub fn run(ctx: &Ctx) -> ! {
         replay(ctx, w);
     }
     let n_dir = directed().len() as u64;
-    let n_own: u64 = ctx.pick(4_000, 120_000);
-    let n_shared: u64 = ctx.pick(2_000, 60_000);
-    let n_udp: u64 = ctx.pick(600, 12_000);
-    let total = n_dir + n_own + n_shared + n_udp;
+    let n_own: u64 = ctx.pick(30_000, 1_200_000);
+    let n_shared: u64 = ctx.pick(15_000, 600_000);
+    let n_udp: u64 = ctx.pick(5_000, 200_000);
+    let total = n_dir + 10 * (n_own.div_ceil(6)).max(n_shared.div_ceil(3)).max(n_udp);
     let c2 = ctx.clone();
     let mut rep: Report = vcore::run_parallel(
         ctx,
@@ -426,19 +426,38 @@ pub fn run(ctx: &Ctx) -> ! {
                 let mut o = tcp_out("directed", scn, false);
                 o.count("directed_scenarios", 1);
                 o.saw("directed", name.to_string());
-                o
-            } else if i < n_dir + n_own {
-                let mut rng = Rng::new(c2.scenario_seed("c16-walk", i - n_dir));
-                tcp_out("walk", &gen::walk(&mut rng, gen::Flavor::C16), true)
-            } else if i < n_dir + n_own + n_shared {
-                // the same walks C06 runs (same seed space), judged by C16's monitors
-                let mut c06 = c2.clone();
-                c06.prop = "C06".into();
-                let mut rng = Rng::new(c06.scenario_seed("c06-walk", i - n_dir - n_own));
-                tcp_out("c06-walk", &gen::walk(&mut rng, gen::Flavor::C06), true)
-            } else {
-                let mut rng = Rng::new(c2.scenario_seed("c16-udp", i - n_dir - n_own - n_shared));
-                udp_out(&gen_udp(&mut rng))
+                return o;
+            }
+            // interleave the three generated parts 6 : 3 : 1 so that a budget
+            // cut on a slow machine thins out every part alike
+            let j = i - n_dir;
+            let (block, r) = (j / 10, j % 10);
+            let (part, k) = match r {
+                0 => (2, block),
+                1..=3 => (1, block * 3 + (r - 1)),
+                _ => (0, block * 6 + (r - 4)),
+            };
+            match part {
+                0 if k < n_own => {
+                    let mut rng = Rng::new(c2.scenario_seed("c16-walk", k));
+                    tcp_out("walk", &gen::walk(&mut rng, gen::Flavor::C16), true)
+                }
+                1 if k < n_shared => {
+                    // the same walks C06 runs (same seed space), judged by C16's monitors
+                    let mut c06 = c2.clone();
+                    c06.prop = "C06".into();
+                    let mut rng = Rng::new(c06.scenario_seed("c06-walk", k));
+                    tcp_out("c06-walk", &gen::walk(&mut rng, gen::Flavor::C06), true)
+                }
+                2 if k < n_udp => {
+                    let mut rng = Rng::new(c2.scenario_seed("c16-udp", k));
+                    udp_out(&gen_udp(&mut rng))
+                }
+                _ => {
+                    let mut o = ScenarioOut::default();
+                    o.discarded = Some("index-padding".into());
+                    o
+                }
             }
         },
     );
@@ -454,7 +473,7 @@ pub fn run(ctx: &Ctx) -> ! {
                 "netstat is trusted for send_q / recv_q; the API-level conservation checks use only write/read return values and wire ACK numbers".into(),
                 "zero-window probes carry no payload and are not bytes in flight".into(),
             ],
-            min_distinct: ctx.pick(1500, 20000),
+            min_distinct: ctx.pick(4_000, 40_000),
             required_counters: vec![
                 "data_segments_checked_mss",
                 "segments_exactly_mss",
